@@ -165,6 +165,7 @@ func runC06(c *Ctx, r *Report) {
 	// every message is written, under a definition that covers it, with the profile's own sizes
 	encodeDefCovers(c, r, "C06-R1-emitted-accepted")
 	encodeProfileRows(c, r, "C06-R1-emitted-accepted")
+	encodeNoRowCopies(c, r, "C06-R1-emitted-accepted")
 	c07EveryMessageWritten(c, r)
 	_ = types.Typ
 	_ = ssa.Value(nil)
